@@ -160,6 +160,9 @@ fn install_panic_hook() {
         }
         if std::env::var("VERIF_LOUD").is_ok() {
             eprintln!("panic: {}", info);
+            if std::env::var("VERIF_BT").is_ok() {
+                eprintln!("{}", std::backtrace::Backtrace::force_capture());
+            }
         }
     }));
 }
@@ -210,6 +213,7 @@ pub struct Worker {
     rx: Receiver<String>,
     last_err: Arc<Mutex<String>>,
     timeout: Duration,
+    hangs: usize,
 }
 
 impl Worker {
@@ -253,7 +257,7 @@ impl Worker {
                 }
             }
         });
-        Worker { child, stdin, rx, last_err, timeout }
+        Worker { child, stdin, rx, last_err, timeout, hangs: 0 }
     }
 
     /// run one case; restarts the worker after a hang or an abort
@@ -275,7 +279,9 @@ impl Worker {
                 let _ = self.child.kill();
                 let _ = self.child.wait();
                 let t = self.timeout;
+                let h = self.hangs;
                 *self = Worker::spawn(t);
+                self.hangs = h;
                 Outcome { ms: t.as_millis(), answer: "HANG".into(), max_req: 0, alloc_site: String::new(), panic_site: String::new() }
             }
             Err(RecvTimeoutError::Disconnected) => {
@@ -283,7 +289,9 @@ impl Worker {
                 std::thread::sleep(Duration::from_millis(30));
                 let e = self.last_err.lock().unwrap().clone();
                 let t = self.timeout;
+                let h = self.hangs;
                 *self = Worker::spawn(t);
+                self.hangs = h;
                 // "C08-ALLOC-REFUSED <size> <site>"
                 let f: Vec<&str> = e.split(' ').collect();
                 if f.first() == Some(&"C08-ALLOC-REFUSED") {
@@ -331,8 +339,14 @@ pub fn run_and_record(w: &mut Worker, sink: &mut vcommon::Sink, line: String, ta
             fails.push(format!("PANIC at {}", o.panic_site));
         }
         "HANG" => {
-            tags.push_str(" kf:hang");
-            fails.push(format!("HANG (> {} s wall clock)", w.timeout.as_secs()));
+            let op = line.split(' ').nth(1).unwrap_or("?");
+            tags.push_str(&format!(" kf:hang-{}", op));
+            // an infinite loop costs a full timeout: after two of them stop being patient
+            w.hangs += 1;
+            if w.hangs >= 2 && w.timeout > Duration::from_secs(3) {
+                w.timeout = Duration::from_secs(3);
+            }
+            fails.push("HANG (no answer within the wall-clock limit; worker killed)".to_string());
         }
         "ABORT" => {
             if o.alloc_site.contains("thrift") || o.alloc_site.contains("page_index") {
